@@ -154,7 +154,9 @@ def revoke_graph(ctx, prog):
         if "ReactorType" in lib.place_type(rr, place):
             ea_ = lib.enum_arms(rr, prog, sb)
             if ea_ and ea_[2].endswith("::ReactorType"):       # not e.g. the Option<&ReactorType> of the iterator
-                sw = sb
+                # (of several matches on the kind, the one that comes first: it dominates the others)
+                if sw is None or rr.dominates(sb, sw):
+                    sw = sb
     if sw is None:
         ctx.fail("C01.a", "revoke_reactor:anchor-lost:match", "%s:%d" % (rr.file, rr.line), "no match on ReactorType")
         return None
@@ -599,7 +601,7 @@ def check(ctx):
                        and any(o[0] == "arg" and o[1] == 2 for o in origins(c, t["args"][0]) | origins(c, t["args"][1]))}
             reqs_c = lib.true_return_requirements(c) if c.local_ty(0) == "bool" else None
             if whole_c and reqs_c and all(any(r.get(b) is True for b in whole_c) for r in reqs_c) \
-                    and any(lib.tail(n, 1) == "filter" for _, _, n, _ in lib.field_method_calls(cnt, "EntityReactors", "reactors")):
+                    and any(lib.tail(n, 1) == "filter" for _, _, n, _ in lib.field_method_calls(cnt, "EntityReactors", A.entity_reactors_field(prog))):
                 via_iter = True
     ctx.check(via_iter, "C01.c",
               "EntityReactors::count:defined-through-iter_rtype", "%s:%d" % (cnt.file, cnt.line), "count == iter_rtype().count()",
